@@ -99,6 +99,12 @@ pub fn check(cond: bool, clause: &str, class: &str, detail: impl FnOnce() -> Str
 pub fn outcome(d: u64) {
   OUTCOME.with(|o| o.set(Some(d)));
 }
+/// Name the current task's position ("sender:route#2"); shows up in deadlock classes and reports.
+pub fn at(label: &str) {
+  if in_shuttle() {
+    shuttle::current::set_name_for_task(shuttle::current::me(), label.to_string());
+  }
+}
 pub fn nontrivial() {
   NONTRIVIAL.with(|o| o.set(true));
 }
@@ -324,7 +330,21 @@ fn classify_panic(msg: &str) -> (String, String, String) {
     return v;
   }
   if msg.starts_with("deadlock!") {
-    return ("deadlock".into(), "all-tasks-blocked".into(), msg.to_string());
+    // class = where the (named) tasks are blocked, so that a different deadlock is a different finding
+    // message format: "... (task NAME(id), pending future), ..."
+    let mut names: Vec<String> = msg
+      .split("(task ")
+      .skip(1)
+      .filter_map(|seg| seg.split(", ").next())
+      .map(|s| match s.rfind('(') {
+        Some(i) => s[..i].to_string(),
+        None => s.to_string(),
+      })
+      .filter(|s| !s.is_empty() && s != "main-thread")
+      .collect();
+    names.sort();
+    let class = if names.is_empty() { "all-tasks-blocked".to_string() } else { format!("blocked[{}]", names.join("+")) };
+    return ("deadlock".into(), class, msg.to_string());
   }
   if msg.contains("exceeded max_steps") {
     return ("livelock".into(), "step-bound".into(), msg.to_string());
